@@ -5,7 +5,7 @@
    whose soundness is the first group of theorems.
    Proofs: theories/Iso_proofs.v, theories/Copy_proofs.v (on top of Traverse_proofs.v). *)
 From Fiddle Require Import PyBase PySlice Sig ArgStore PyCall Heap Traverse Build Build_stmt
-  Traverse_proofs C08Check Copy Iso_proofs Copy_proofs Anchors.
+  Traverse_proofs C08Check Copy Iso_proofs Copy_proofs.
 From Coq Require Import List Arith.
 Import ListNotations.
 Local Open Scope nat_scope.
